@@ -116,7 +116,7 @@ def init_state(ex: Executor, contract: Contract, fn_node) -> tuple[State, dict]:
         st.env[nm] = v
         bind[nm] = v
     if a.vararg:
-        v = ex.new_seq(st, tuple, z3.Const("p_varargs", z3.SeqSort(V)))
+        v = ex.new_seq(st, tuple, z3.Int("p_varargs_n"), z3.Const("p_varargs", z3.ArraySort(I, V)))
         st.env[a.vararg.arg] = v
     if a.kwarg:
         v = ex.new_object(st, dict, T.DictT(str, None))
@@ -155,9 +155,19 @@ def _run(ex: Executor, w: World, src: FunctionSource, contract: Contract, res: F
             names["result"] = rv
             if contract.result is not None and repr(contract.result) != repr(rv.ty):
                 ex.oblige(s, ex.type_pred(rv.t, contract.result), f"post.result_type.{idx}", "post", fn, f"result has type {T.tname(contract.result)}")
+            # postconditions are proved in order; an earlier one may be used as a lemma for the later ones
+            # (recorded in .depends: a dependent verdict only counts if its lemmas are discharged)
+            s_acc = s.fork()
+            deps = []
             for eid, es in contract.ensures.items():
                 ctx = SpecCtx(ex, old=pre, cur=s, names=names)
-                ex.oblige(s, ctx.eval_bool(es), f"{eid}.r{idx}", "post", fn, es)
+                g = ctx.eval_bool(es)
+                n_before = len(ex.obligations)
+                ex.oblige(s_acc, g, f"{eid}.r{idx}", "post", fn, es)
+                if len(ex.obligations) > n_before:
+                    ex.obligations[-1].depends = list(deps)
+                    deps.append(ex.obligations[-1].id)
+                s_acc.assume(g)
             for ec, spec in raises.items():
                 when = spec.get("when")
                 if when is not None and spec.get("iff", True):
